@@ -233,11 +233,11 @@ def run(tier, conc=True):
     quick = tier == "quick"
     mcs = [({"maxq": 3, "auto": 2, "ret": 1, "types": ["mis", "bad", "tox"]}, 5), ({"maxq": 2, "auto": 8, "ret": NORET, "types": ["mis", "bad", "tox"]}, 4)]
     if not quick:
-        mcs += [({"maxq": 4, "auto": 3, "ret": 2, "types": ["mis", "bad", "tox", "exp"]}, 6), ({"maxq": 4, "auto": 8, "ret": 1, "types": ["mis", "bad", "tox"]}, 7)]
+        mcs += [({"maxq": 4, "auto": 3, "ret": 2, "types": ["mis", "bad", "tox", "exp"]}, 5), ({"maxq": 4, "auto": 8, "ret": 1, "types": ["mis", "bad", "tox"]}, 6)]     # 0.6M / 3.9M states, 1-6 min
     for c, mi in mcs:
         cfg = tlc.cfg_text(spec="Spec", constants=constants(c, mi), invariants=["Bounded", "Conservation", "SensitiveNeverRecycled", "ToxicRule"],
                            constraints=["TimeBound"], view="MCView")
-        r = tlc.must(tlc.run_tlc("Lysosome", cfg, workers=16, timeout=1800, coverage=True), "MC")
+        r = tlc.must(tlc.run_tlc("Lysosome", cfg, workers=16, timeout=5400, coverage=True), "MC")
         R.add_tlc("MC_Lysosome %s items<=%d" % (c, mi), r)
         if r["violated"]:
             raise base.MachineryError("Lysosome.tla violates its own P-layer: %s\n%s" % (r["violated"], r["out"][-2000:]))
